@@ -97,7 +97,7 @@ def cases(rng, tier):
             yield mk(t, ["iter", "cstr"])
     n = {"quick": 1500, "thorough": 60000, "search": 3000}[tier]
     for i in range(n):
-        t = _rand_text(rng, big=(tier == "thorough" and i % 50 == 0))
+        t = _rand_text(rng, big=(tier == "thorough" and i % 500 == 0))
         if rng.random() < 0.05:
             t = rng.choice(MALFORMED) + rng.choice(["", ",", ",3"]) + (t if rng.random() < 0.5 else "")
         yield mk(t, _rand_ops(rng, t))
